@@ -155,6 +155,7 @@ class Executor(ExprMixin, CallMixin, ContractMixin, StmtMixin):
 
     def check_return(self, st: State, result: Sym, idx: int):
         c = self.contract
+        st.notes["final_env"] = dict(st.env)  # ghost access to locals at the return point: final('<name>')
         env = self.result_env(st, result)
         path = "→".join(st.trace[-12:])
         posted = False
